@@ -4,6 +4,7 @@ import (
 	"context"
 	"errors"
 	"fmt"
+	"google.golang.org/protobuf/encoding/protowire"
 	"io"
 	"net"
 	"sort"
@@ -62,6 +63,7 @@ type wscript struct {
 	emsg       string
 	ekind      int  // how the handler builds the error it returns: 0 status error, 1 status error wrapped with %w, 2 plain Go error
 	mutate     bool // the sender scribbles over a message right after sending it
+	unknown    bool // unary: request and response carry a field this build does not know
 	prevHop    bool // the caller is itself a handler: its context carries the incoming metadata of the previous hop
 	outMD      bool // the caller sends outgoing metadata
 	nilOnDone  bool // cancel / deadline: the handler returns nil once its context has ended
@@ -91,11 +93,11 @@ func (s wscript) String() string {
 		}
 	}
 	term := []string{"return-ok", fmt.Sprintf("return(%s,%q,%s)", s.code, s.emsg, []string{"status", "wrapped-status", "plain-error"}[s.ekind]), "client-cancel", "deadline"}[s.term]
-	return fmt.Sprintf("%s [%s] %s mutate=%v late-handler=%v md-reuse=%v pre-done=%v late-cancel=%v third-party=%v nil-on-done=%v prev-hop=%v out-md=%v", []string{"unary", "sstream", "cstream", "bidi"}[s.shape], strings.Join(p, " "), term, s.mutate, s.late, s.mdReuse, s.preDone, s.lateCancel, s.thirdParty, s.nilOnDone, s.prevHop, s.outMD)
+	return fmt.Sprintf("%s [%s] %s mutate=%v late-handler=%v md-reuse=%v pre-done=%v late-cancel=%v third-party=%v nil-on-done=%v prev-hop=%v out-md=%v unknown-fields=%v", []string{"unary", "sstream", "cstream", "bidi"}[s.shape], strings.Join(p, " "), term, s.mutate, s.late, s.mdReuse, s.preDone, s.lateCancel, s.thirdParty, s.nilOnDone, s.prevHop, s.outMD, s.unknown)
 }
 
 func genWrapScript(t *Tape) wscript {
-	s := wscript{shape: t.Choose(4), term: t.Choose(4), mutate: t.Flag(1, 3), late: t.Flag(1, 3), mdReuse: t.Flag(1, 3), prevHop: t.Flag(1, 4), outMD: t.Flag(1, 4)}
+	s := wscript{shape: t.Choose(4), term: t.Choose(4), mutate: t.Flag(1, 3), late: t.Flag(1, 3), mdReuse: t.Flag(1, 3), prevHop: t.Flag(1, 4), outMD: t.Flag(1, 4), unknown: t.Flag(1, 4)}
 	s.code = []codes.Code{codes.NotFound, codes.InvalidArgument, codes.Internal, codes.Unavailable, codes.PermissionDenied, codes.Aborted}[t.Choose(6)]
 	s.emsg = []string{"boom", "", "not here"}[t.Choose(3)]
 	s.ekind = []int{0, 0, 1, 2}[t.Choose(4)]
@@ -330,10 +332,18 @@ func (sv *scriptServer) scribbleMD(md metadata.MD) {
 func (sv *scriptServer) Unary(ctx context.Context, req *testproto.UnaryRequest) (*testproto.UnaryResponse, error) {
 	defer sv.enter()()
 	sv.tr.server = append(sv.tr.server, req.Msg)
+	if sv.s.unknown {
+		// fields that this build of the API does not know (a newer peer): they travel with the message
+		sv.tr.server = append(sv.tr.server, fmt.Sprintf("unknown-bytes=%d", len(req.ProtoReflect().GetUnknown())))
+	}
 	if err := sv.run(nil, ctx, nil, nil); err != nil {
 		return nil, err
 	}
-	return &testproto.UnaryResponse{Msg: "unary-response"}, nil
+	resp := &testproto.UnaryResponse{Msg: "unary-response"}
+	if sv.s.unknown {
+		resp.ProtoReflect().SetUnknown(protowire.AppendVarint(protowire.AppendTag(nil, 1001, protowire.VarintType), 9))
+	}
+	return resp, nil
 }
 
 func (sv *scriptServer) ServerStream(req *testproto.ServerStreamRequest, st grpc.ServerStreamingServer[testproto.ServerStreamResponse]) error {
@@ -431,6 +441,9 @@ func runWrapClient(s wscript, client testproto.TestApiClient, yield func(string)
 	if s.shape == 0 {
 		var h, t metadata.MD
 		req := &testproto.UnaryRequest{Msg: "unary-request"}
+		if s.unknown {
+			req.ProtoReflect().SetUnknown(protowire.AppendVarint(protowire.AppendTag(nil, 1000, protowire.VarintType), 7))
+		}
 		resp, err := client.Unary(ctx, req, grpc.Header(&h), grpc.Trailer(&t))
 		if s.mutate {
 			req.Msg = "MUTATED-AFTER-SEND" // the call is over for the caller (however it ended): the request is the caller's again
@@ -444,6 +457,9 @@ func runWrapClient(s wscript, client testproto.TestApiClient, yield func(string)
 			obs("unary -> %s", errClass(err))
 		} else {
 			obs("unary -> %q", resp.Msg)
+			if s.unknown {
+				obs("unknown-bytes=%d", len(resp.ProtoReflect().GetUnknown()))
+			}
 		}
 		headerSynced = err == nil
 		recordHeader(h, nil, "end")
